@@ -6,6 +6,12 @@ of /repo (under /tmp, removed afterwards) and the quick check is run against the
 exit 1.  A seed whose patch no longer applies to the current tree is skipped and reported as such (the tree has
 moved on; that is not a failure of the checker).  A seed that applies and is no longer caught makes the run an
 ANALYSIS-ERROR: the checker lost sensitivity it is documented to have.
+
+The other way round: the behaviour-preserving edits kept under /verif/refactors (written by independent sub-agents;
+the pinned tests and their own demonstration pass with them) must leave the check silent.  For a property the edits
+named after it (<Cxx>_r*) and the ones recorded as former false alarms of it (meta.json "regression_for") are applied
+the same way: the quick check must exit 0, anything else is an ANALYSIS-ERROR (the checker raises an alarm, or breaks,
+on code where the property holds).
 """
 
 from __future__ import annotations
@@ -38,9 +44,45 @@ def seeds_for(pid):
     return out
 
 
+def refactors_for(pid):
+    root = os.path.join(VERIF, "refactors")
+    out = []
+    if not os.path.isdir(root):
+        return out
+    for d in sorted(os.listdir(root)):
+        mp = os.path.join(root, d, "meta.json")
+        if not os.path.exists(mp):
+            continue
+        try:
+            m = json.load(open(mp))
+        except Exception:
+            continue
+        if d.startswith(pid + "_") or pid in m.get("regression_for", []):
+            out.append((d, os.path.join(root, d, "patch.diff")))
+    return out
+
+
 def run_selftest(pid, repo="/repo"):
     """-> dict(results=[...], failed=[...])"""
     results, failed = [], []
+    for name, patch in refactors_for(pid):
+        tmp = tempfile.mkdtemp(prefix=f"verif_selftest_{pid}_", dir="/tmp")
+        try:
+            dst = os.path.join(tmp, "repo")
+            shutil.copytree(repo, dst, ignore=shutil.ignore_patterns(".git", "__pycache__", "*.pyc", ".pytest_cache"))
+            p = subprocess.run(["patch", "-p1", "-s", "-d", dst, "-i", patch], capture_output=True, text=True)
+            if p.returncode != 0:
+                results.append({"seed": name, "outcome": "skipped: patch does not apply to the current tree"})
+                continue
+            env = dict(os.environ, VERIF_OUT=os.path.join(tmp, "out"), VERIF_REPO=dst)
+            q = subprocess.run([os.path.join(VERIF, "check"), pid, "--tier", "quick", "--repo", dst], capture_output=True, text=True, env=env, timeout=900)
+            if q.returncode == 0:
+                results.append({"seed": name, "outcome": "silent (behaviour-preserving edit)"})
+            else:
+                results.append({"seed": name, "outcome": f"NOT silent on a behaviour-preserving edit (exit {q.returncode})", "tail": q.stdout[-300:]})
+                failed.append(name)
+        finally:
+            shutil.rmtree(tmp, ignore_errors=True)
     for name, patch in seeds_for(pid):
         tmp = tempfile.mkdtemp(prefix=f"verif_selftest_{pid}_", dir="/tmp")
         try:
